@@ -101,11 +101,9 @@ theorem mem_projsAbove {p : Program} {s : St} {k c : Key} :
     simp only [hn, hk, decide_true, Bool.true_and]
     exact (Qbice.Core.any_key_iff n.deps k).2 ⟨o, hm⟩
 
-/-- what a `BackwardProjectionPropagation` request for `c` needs: `c` is a projection that is verified
-    or has a callee whose backward projection is pending -/
+/-- what a `BackwardProjectionPropagation` request for `c` needs: `c` has a projection node -/
 def PreB (s : St) (c : Key) : Prop :=
-  ∃ n, s.nodes c = some n ∧ n.kind = .projection ∧
-    (n.lastVerified = s.epoch ∨ ∃ f o, (f, o) ∈ n.deps ∧ hasPending s f = true)
+  ∃ n, s.nodes c = some n ∧ n.kind = .projection
 
 /-- … and what it guarantees -/
 def BPost (p : Program) (c : Key) (s : St) (r : Val × St) : Prop :=
@@ -147,39 +145,29 @@ theorem backProject_spec {p : Program} {qb : Q} {k : Key} {s : St} (inv : Inv p 
       NoClearBelow (k + 1) s s' ∧
       ∀ f, f ∈ projsAbove p s k → Verified s' f ∧ (Verified s' f ∧ hasPending s' f = false)) := by
     refine queryEach_spec
-      (P := fun c s' => k < c ∧ hasPending s' k = true ∧ ∃ n, s'.nodes c = some n ∧
-        n.kind = .projection ∧ (n.lastVerified = s'.epoch ∨ ∃ o, (k, o) ∈ n.deps))
+      (P := fun c s' => k < c ∧ PreB s' c)
       (R := NoClearBelow (k + 1)) (G := fun c s' => Verified s' c ∧ hasPending s' c = false)
       (NoClearBelow.refl _) (fun _ _ _ => NoClearBelow.trans)
       ?_ ?_ (fun c s1 s2 g _ _ f12 _ => quiet_stable f12 g) (projsAbove p s k) s ?_ inv
-    · rintro c s' i ⟨hlt, hpk', n, hn, hkp, hc⟩
-      have hpre : PreB s' c := by
-        refine ⟨n, hn, hkp, ?_⟩
-        rcases hc with hc | ⟨o, hm⟩
-        · exact Or.inl hc
-        · exact Or.inr ⟨k, o, hm, hpk'⟩
+    · rintro c s' i ⟨hlt, hpre⟩
       refine (hq c s' hlt i hpre).mono ?_
       rintro r ⟨hu, hnc, hnp⟩
       have hu' := hu
       obtain ⟨_, _, _, n1, hn1, _, hv1⟩ := hu'
       exact ⟨hu, hnc.mono (by komega), ⟨n1, hn1, hv1⟩, hnp⟩
-    · rintro c s1 s2 ⟨hlt, hpk1, n, hn, hkp, hc⟩ i1 i2 f12 r12
-      refine ⟨hlt, hasPending_noClear r12 (by komega) hpk1, ?_⟩
+    · rintro c s1 s2 ⟨hlt, n, hn, hkp⟩ i1 i2 f12 _
+      refine ⟨hlt, ?_⟩
       cases f12.same_or_verified c with
       | inr v =>
-        obtain ⟨n2, h2, hv2⟩ := v
+        obtain ⟨n2, h2, _⟩ := v
         obtain ⟨d1, hp1, hk1, _⟩ := i1.kind c n hn
         obtain ⟨d2, hp2, hk2, _⟩ := i2.kind c n2 h2
         rw [hp1] at hp2; cases hp2
-        exact ⟨n2, h2, by rw [← hk2, hk1]; exact hkp, Or.inl hv2⟩
-      | inl e =>
-        refine ⟨n, by rw [e]; exact hn, hkp, ?_⟩
-        rcases hc with hc | hc
-        · exact Or.inl (by rw [hc, f12.epoch])
-        · exact Or.inr hc
+        exact ⟨n2, h2, by rw [← hk2, hk1]; exact hkp⟩
+      | inl e => exact ⟨n, by rw [e]; exact hn, hkp⟩
     · intro c hc
       obtain ⟨hlt, n, o, hn, hkp, hm⟩ := mem_projsAbove.1 hc
-      exact ⟨(inv.down c n hn k o hm).1, by simp [hasPending, hk, hpk], n, hn, hkp, Or.inr ⟨o, hm⟩⟩
+      exact ⟨(inv.down c n hn k o hm).1, n, hn, hkp⟩
   cases hr : queryEach qb (projsAbove p s k) s with
   | error e => rw [hr] at hloop; simpa [Sat] using hloop
   | ok s1 =>
@@ -281,7 +269,8 @@ theorem queryQ_fuelFor {p : Program} (wf : WF p) (sh : Shape p) (ped : Bool) (k 
   · rw [show fuelFor p = p.length + 1 from rfl, queryQ_badKey inv (by komega) p.length ped]
     simp [Sat]
 
-/-- the `BackwardProjectionPropagation` caller: the recursion goes to higher keys -/
+/-- the `BackwardProjectionPropagation` caller (since the F13 repair: a pedantic repair, then the
+    pending backward projection of the key itself): the recursion goes to higher keys -/
 theorem queryB_spec {p : Program} (wf : WF p) (sh : Shape p) :
     ∀ fuel c s, p.length ≤ c + fuel → Inv p s → PreB s c → Sat (queryB p fuel c s) (BPost p c s) := by
   intro fuel
@@ -294,45 +283,14 @@ theorem queryB_spec {p : Program} (wf : WF p) (sh : Shape p) :
       obtain ⟨h, _⟩ := hp; exact h
     omega
   | succ fuel ih =>
-    intro c s hf inv hpre
-    obtain ⟨n, hn, hkp, hc⟩ := hpre
-    obtain ⟨d, hp, hkd, _⟩ := inv.kind c n hn
-    have hlt : c < p.length := by
-      rw [List.getElem?_eq_some_iff] at hp
-      obtain ⟨h, _⟩ := hp; exact h
-    simp only [queryB, hn]
-    -- the request proper
-    have hfirst : Sat (if n.lastVerified = s.epoch then (Except.ok (n.value, s) : Except Err (Val × St))
-        else match p[c]? with
-          | none => .error (.badKey c)
-          | some d => execute (queryQ p (fuelFor p) true) c d s) (QPost p c s) := by
-      split
-      · rename_i hv
-        refine ⟨inv, Frame.refl p s, Touches.refl _ s, ?_, n, hn, rfl, hv⟩
-        obtain ⟨n', hn', hcur⟩ := solid_correct wf inv (inv.solid c n hn hv)
-        rw [hn] at hn'; cases hn'; exact hcur
-      · rename_i hv
-        rw [hp]
-        simp only
-        obtain ⟨f, o, hm, hpe⟩ : ∃ f o, (f, o) ∈ n.deps ∧ hasPending s f = true := by
-          rcases hc with h | h
-          · exact absurd h hv
-          · exact h
-        have hq : QSpec p (queryQ p (fuelFor p) true) c := fun d' hd' s' inv' =>
-          queryQ_spec wf sh (fuelFor p) true d' (by simp [fuelFor]; komega) s' inv'
-        have hnv : ¬ Verified s c := by
-          rintro ⟨n', hn', hv'⟩
-          rw [hn] at hn'; cases hn'; exact hv hv'
-        exact execute_spec wf sh hq hp (by rw [hkd, hkp]; decide) (by rw [hkd, hkp]; decide) inv
-          (Or.inr ⟨hnv, n, f, o, hn, hkp, hm, hpe⟩) (Or.inr ⟨n, f, o, hn, hkp, hv, hm, hpe⟩)
-    generalize (if n.lastVerified = s.epoch then (Except.ok (n.value, s) : Except Err (Val × St))
-        else match p[c]? with
-          | none => .error (.badKey c)
-          | some d => execute (queryQ p (fuelFor p) true) c d s) = r at hfirst ⊢
-    cases r with
-    | error e => simpa [Sat] using hfirst
+    intro c s hf inv _
+    simp only [queryB]
+    have hfirst := queryQ_fuelFor wf sh true c inv
+    cases hr0 : queryQ p (fuelFor p) true c s with
+    | error e => rw [hr0] at hfirst; simpa [Sat] using hfirst
     | ok r =>
       obtain ⟨v, s1⟩ := r
+      rw [hr0] at hfirst
       obtain ⟨i1, f1, t1, c1, n1, hn1, hv1, hver1⟩ := hfirst
       simp only at i1 f1 t1 c1 hn1 hv1 hver1 ⊢
       split
